@@ -89,7 +89,8 @@ Definition move_of (md : exec_mode) (D : tenv) (F : list fundef) (c : config) (c
       | ACtrl k provs, Some k' =>
         if bool_decide (k = k') && polls_control md D pt then
           MMove (Move (Some f) None t pt
-                   (Eff (Continue (set_provs_body pt provs (pr_body0 pt))) [] [] (cids_of (pr_provs pt)) []))
+                   (Eff (Continue (set_provs_body pt (provs ++ List.tl (pr_provs pt)) (pr_body0 pt))) [] []
+                        (cids_of (firstn 1 (pr_provs pt))) []))
         else MNot
       | _, _ => MNot
       end
@@ -536,7 +537,9 @@ Proof.
     split; cbn [mv_self mv_kill mv_put mv_proc mv_eff movers reads closes put_chan]; rewrite ?Ef, ?Et;
       try done; try set_solver.
     + intros s' [= <-]. split; [done|by rewrite Ef].
-    + split; cbn; [set_solver|intros ? [= <-]; cbn; lia|set_solver].
+    + split; cbn [e_newch e_after e_close]; [set_solver|intros ? [= <-]; cbn; lia|].
+      intros x Hx. destruct (pr_provs pt) as [|n l]; cbn in Hx |- *; [done|].
+      rewrite app_nil_r in Hx. apply elem_of_app. by left.
 Qed.
 
 (* ------------------------------------------------------------------ frame for the process table *)
